@@ -199,6 +199,11 @@ func (da *doubleArray) lookup(path string, params []Param, idx int) (*node, []Pa
 			indices = append(indices, (uint64(i)<<indexOffset)|(uint64(idx)&indexMask))
 		}
 		c := path[i]
+		if c == ParamCharacter || c == WildcardCharacter || c == TerminationCharacter || c == 0 {
+			// these bytes label the parameter and termination edges of the trie (0 marks an unused
+			// cell): a byte of the looked-up path never follows such an edge as if it were a literal
+			goto BACKTRACKING
+		}
 		if idx = nextIndex(da.bc[idx].Base(), c); idx >= len(da.bc) || da.bc[idx].Check() != c {
 			goto BACKTRACKING
 		}
